@@ -80,6 +80,12 @@ def gen_state(rng, n, fam):
         return _unit(-np.abs(rng.normal(size=N)) - 0.05)
     if fam == "imag":
         return _unit(1j * rng.normal(size=N))
+    if fam == "near_real":          # real up to round-off (imaginary parts of relative size 1e-12 .. 1e-17)
+        return _unit(rng.normal(size=N) + 1j * rng.normal(size=N) * 10.0 ** float(rng.integers(-17, -11)))
+    if fam == "tiny_odd":           # odd-indexed amplitudes tiny but non-zero, with phases
+        v = _cgauss(rng, N)
+        v[1::2] *= 10.0 ** float(rng.integers(-12, -8))
+        return _unit(v)
     if fam == "basis":
         v = np.zeros(N, complex)
         k = [0, N - 1, int(rng.integers(N)), int(rng.integers(N))][int(rng.integers(4))]
@@ -201,7 +207,7 @@ def _product_generic(rng, n):
 
 FAMS = ["complex", "real", "positive", "negative", "imag", "basis", "sparse", "zero_subtree", "product", "blockprod",
         "uniform", "hadamard", "phase", "ghz", "w", "dicke", "lowrank", "bellpairs", "dyadic", "smallamp", "schur",
-        "near_product"]
+        "near_product", "near_real", "tiny_odd"]
 
 
 # ------------------------------------------------------------------------------------------------ configurations
